@@ -224,3 +224,6 @@ func vxJitter() {
 // vxLibRead/vxLibWrite: race-detector attribution in the engine; natively the accesses below are real anyway.
 func vxLibRead(b []byte)  {}
 func vxLibWrite(b []byte) {}
+
+// vxAssertE: an assertion over facts only the engine can observe (locks held, parked goroutines): nothing to check natively.
+func vxAssertE(c bool, id string) {}
